@@ -380,6 +380,16 @@ func (e *Env) eval(x *SExpr) Val {
 						if c, ok := imp.Scope().Lookup(x.Name).(*types.Const); ok {
 							return e.constVal(c)
 						}
+						if gv, ok := imp.Scope().Lookup(x.Name).(*types.Var); ok {
+							// package-level variable of an imported package (io.EOF)
+							t := gv.Type()
+							lv := e.a.loadLoc(e.st, &Loc{Kind: "global", Root: "G:" + imp.Name() + "." + gv.Name(), Owner: t, T: t})
+							if types.IsInterface(t) && lv.Sort == SortInt {
+								e.a.vc.assume("true", not(app("=", lv.Term, "0")))
+								e.a.vc.assumed["sentinel error variables of external packages are non-nil and never reassigned: "+imp.Path()+"."+gv.Name()] = true
+							}
+							return lv
+						}
 					}
 				}
 			}
